@@ -6,6 +6,7 @@ import WinterProofs.Lemmas.C10Unique
 import WinterProofs.Lemmas.C10Spec
 import WinterProofs.Lemmas.C10Paths
 import WinterProofs.Lemmas.C10PathsHonest
+import WinterProofs.Lemmas.C10Ser
 
 namespace WinterProofs.C10
 open Model.Merkle
@@ -195,6 +196,25 @@ def PathsRecompress (H : Hasher D) : Prop :=
   ∀ (paths : List (List D)), paths.length = idxs.length →
     (∀ j (hj : j < idxs.length), prove (treeOf H leaves) idxs[j] = .ok (paths.getD j [])) →
     fromPaths H paths idxs = proveBatch H (treeOf H leaves) idxs
+
+/-! ## Serialization of the node rows (`serialize_nodes`, `deserialize`) -/
+
+/-- Round trip with exact byte consumption: for every proof with at most 255 rows of at most 255
+    nodes each (otherwise `serialize_nodes` panics, as documented), non-zero depth and 1..255 leaves,
+    `deserialize` on the serialized rows followed by arbitrary bytes `rest` returns the proof and
+    leaves exactly `rest` unread — provided reading a written digest returns it (`CodecOK`). -/
+theorem ser_roundtrip (C : Codec D) (hc : CodecOK C) (p : BatchProof D) (hn : p.nodes.length ≤ 255)
+    (hrow : ∀ row ∈ p.nodes, row.length ≤ 255) (hd : p.depth ≠ 0) (hl1 : p.leaves ≠ [])
+    (hl2 : p.leaves.length ≤ 255) (rest : List Nat) :
+    ∃ bytes, serializeNodes C p = .ok bytes ∧ deserialize C (bytes ++ rest) p.leaves p.depth = .ok (p, rest) := by
+  obtain ⟨bs, hb⟩ := serRows_total C p.nodes hrow
+  refine ⟨p.nodes.length :: bs, ?_, ?_⟩
+  · unfold serializeNodes
+    rw [if_neg (by omega), hb]; rfl
+  · unfold deserialize
+    rw [if_neg hd, if_neg (by cases hp : p.leaves with | nil => exact absurd hp hl1 | cons a t => simp),
+      if_neg (by simp [maxPaths]; omega)]
+    simp only [List.cons_append, readRows_serRows C hc p.nodes bs hb rest]
 
 /-! ## The specification `specRoot` (WinterProofs/Lemmas/C10Spec.lean)
 
@@ -396,6 +416,12 @@ example : (fromPaths exH ([] : List (List T)) []).isPanic = true ∧
     intoPaths exH exBatch [6, 1, 18446744073709551615] = .err .oob ∧
     intoPaths exH { exBatch with nodes := [[T.leaf 0, T.leaf 9], [T.leaf 2], [T.leaf 7, T.node (T.leaf 4) (T.leaf 5)]] }
       [6, 1, 3] = .err .invalid := by decide
+
+-- serialization of the concrete opening (digests written as one tag byte per constructor … here: a toy
+-- codec on `T` is not needed: the instance below uses the numbers 0..255 as digests, one byte each)
+example := ser_roundtrip (D := Nat) { enc := fun d => [d], dec := fun bs => match bs with | [] => .error .eof | b :: r => .ok (b, r) }
+  (fun _ _ => rfl) { leaves := [6, 1, 3], nodes := [[0], [2], [7, 45]], depth := 3 } (by decide) (by decide) (by decide)
+  (by decide) (by decide) [9, 9]
 
 -- the refinement statement on the concrete opening: the rows flatten to the nodes `specRoot` consumes
 example : flattenRows [(1, 1), (3, 2), (6, 0)] exBatch (normalizeIndexes [6, 1, 3]) =
